@@ -197,8 +197,9 @@ theorem web_task_stores_error_for_rejected_text (o : SrvC.Oracle) (db : ServerM.
   · simp only [ServerM.step, ServerM.stepT, ServerM.handler, ServerM.hSolve, hs, ServerM.run, ServerM.exec, hf,
       ServerM.reply]
 
-/-- **web part (3): no answer is EVER produced** (every history of the service, any interleaving of users and
-task events): in every reachable state a document under an untainted key (no stale write of finding D9 since
+/-- **web part (3): no answer is ever produced in the ATOMIC-request model** (every history of `ServerM.runAll`: any
+interleaving of users' requests and task events, each request executed atomically; under COMMAND-level interleaving
+the `add ∥ add` race of finding D14 gives a refused code a framework: `C16.add_race_answers_rejected_code`): in every reachable state a document under an untainted key (no stale write of finding D9 since
 the key was last cleared) whose code the parser refuses carries no framework and no result under any strategy -/
 theorem web_no_answer_for_rejected_text (o : SrvC.Oracle) (es : List (ServerM.Event String))
     (p : ServerM.Problem String ServerAdf.SAdf ServerAdf.SRes)
@@ -214,7 +215,13 @@ theorem web_rejects_unbalanced (o : SrvC.Oracle) (pg : ServerM.Parsing) (code : 
     (SrvC.libEnv o).parse pg code = .error .parseError :=
   (web_parse_rejects_rejected_text (T := Nat) o Bio.ttLib Bio.ttDump pg code (reject_unbalanced _ h)).1
 
--- non-vacuity by evaluation (the parser on a string literal does not reduce in the kernel): `s(a.` is refused
+-- non-vacuity, kernel-checked (third review: `decide +kernel` evaluates the parser on a string literal)
+-- C08: rejected text, kernel
+example : ParserM.parse "s(a.".toList = none := by decide +kernel
+example : (SrvC.libEnv {}).parse .hybrid "s(a." = .error .parseError :=
+  (web_parse_rejects_rejected_text (T := Nat) {} Bio.ttLib Bio.ttDump .hybrid "s(a." (by decide +kernel)).1
+
+-- and by evaluation: `s(a.` is refused
 -- by the parser model, and both parsing strategies of the executable service answer the parse error
 #guard (parse "s(a.".toList).isNone
 #guard (match (SrvC.libEnv {}).parse .naive "s(a.", (SrvC.hybEnv Bio.ttLib Bio.ttDump).parse .hybrid "s(a." with
@@ -290,3 +297,4 @@ end C08
 #print axioms C08.web_parse_rejects_rejected_text
 #print axioms C08.web_task_stores_error_for_rejected_text
 #print axioms C08.web_no_answer_for_rejected_text
+#print axioms C08.web_rejects_unbalanced
